@@ -168,6 +168,12 @@ CANARIES = [
     ('bucket-get-kv-answers-only-when-dirty', 'C07', 'src/bucket.rs', '        match b.get(key) {\n            Some(data) => data.into(),\n            None => None,\n        }', '        match b.get(key) {\n            Some(data) if b.dirty => data.into(),\n            _ => None,\n        }'),
     ('bucket-next-int-is-the-root-page', 'C07', 'src/bucket.rs', '            panic!("Cannot get next int from a deleted bucket.");\n        }\n        b.meta.next_int', '            panic!("Cannot get next int from a deleted bucket.");\n        }\n        b.meta.root_page'),
     ('bucket-get-drops-the-answer', 'C07', 'src/bucket.rs', '        b.get(key).map(|data| data.into())', '        b.get(key).map(|data| data.into()).filter(|_| false)'),
+    ('cursor-new-starts-as-already-polled', 'C08', 'src/cursor.rs', '            stack: Vec::new(),\n            next_called: false,', '            stack: Vec::new(),\n            next_called: true,'),
+    ('cursor-new-drops-write-permission', 'C08', 'src/cursor.rs', '            freelist: b.freelist.clone(),\n            writable: b.writable,\n            stack: Vec::new(),', '            freelist: b.freelist.clone(),\n            writable: false,\n            stack: Vec::new(),'),
+    # E13: a bucket deletion refuses every open handle below the deleted bucket
+    ('tree-delete-bucket-marks-only-itself', 'C05', 'src/bucket.rs', '        b.mark_deleted();\n', '        b.deleted = true;\n'),
+    ('mark-deleted-stops-at-the-children', 'C05', 'src/bucket.rs', '            child.borrow_mut().mark_deleted();', '            child.borrow_mut().deleted = true;'),
+    ('mark-deleted-forgets-itself', 'C05', 'src/bucket.rs', '    fn mark_deleted(&mut self) {\n        self.deleted = true;\n', '    fn mark_deleted(&mut self) {\n'),
 ]
 
 
@@ -232,6 +238,7 @@ EQUIVALENTS = [
     ('eq-commit-flush-then-sync-block', 'C11', 'src/tx.rs', '            file.flush()?;\n            file.sync_all()?;\n        }\n', '            {\n                file.flush()?;\n            }\n            file.sync_all()?;\n        }\n'),
     ('eq-open-lock-binding', 'C13', 'src/db.rs', '        file.lock_exclusive()?;\n', '        let locked = file.lock_exclusive();\n        locked?;\n'),
     ('eq-bucket-get-kv-if-let', 'C07', 'src/bucket.rs', '        match b.get(key) {\n            Some(data) => data.into(),\n            None => None,\n        }', '        if let Some(data) = b.get(key) {\n            return data.into();\n        }\n        None'),
+    ('eq-cursor-new-preallocates-the-stack', 'C08', 'src/cursor.rs', '            stack: Vec::new(),\n            next_called: false,', '            stack: Vec::with_capacity(4),\n            next_called: false,'),
 ]
 CANARY_EXPECT_NOT_KILLED = set(c[0] for c in EQUIVALENTS)
 CANARIES = CANARIES + EQUIVALENTS
